@@ -2,7 +2,7 @@
 (* C06: a kill terminates the whole subtree, children first, each reported    *)
 (* once; parent (and watchers) get exactly one OnKilled; the path is released. *)
 EXTENDS Integers, Sequences, FiniteSets, TLC, Json
-VARIABLES l, bad, parent, spawned, killedEv, notified, killAimed, states, zombies, tainted
+VARIABLES l, bad, parent, spawned, killedEv, notified, killAimed, states, zombies, tainted, lateTicks
 
 (***************************************************************************)
 (* Trace alphabet (one JSON object per line, totally ordered by the turn   *)
@@ -22,19 +22,19 @@ Get(f, k, d) == IF k \in DOMAIN f THEN f[k] ELSE d
 Put(f, k, v) == [x \in DOMAIN f \cup {k} |-> IF x = k THEN v ELSE f[x]]
 Flag(rule) == IF bad = "" THEN rule ELSE bad
 Range(s) == {s[i] : i \in 1..Len(s)}
-vars == <<l, bad, parent, spawned, killedEv, notified, killAimed, states, zombies, tainted>>
-Fresh == parent = <<>> /\ spawned = {} /\ killedEv = {} /\ notified = <<>> /\ killAimed = {} /\ states = <<>> /\ zombies = {} /\ tainted = FALSE
-FreshNext == parent' = <<>> /\ spawned' = {} /\ killedEv' = {} /\ notified' = <<>> /\ killAimed' = {} /\ states' = <<>> /\ zombies' = {} /\ tainted' = FALSE
+vars == <<l, bad, parent, spawned, killedEv, notified, killAimed, states, zombies, tainted, lateTicks>>
+Fresh == parent = <<>> /\ spawned = {} /\ killedEv = {} /\ notified = <<>> /\ killAimed = {} /\ states = <<>> /\ zombies = {} /\ tainted = FALSE /\ lateTicks = <<>>
+FreshNext == parent' = <<>> /\ spawned' = {} /\ killedEv' = {} /\ notified' = <<>> /\ killAimed' = {} /\ states' = <<>> /\ zombies' = {} /\ tainted' = FALSE /\ lateTicks' = <<>>
 Init == l = 1 /\ bad = "" /\ Fresh
 OnSpawn ==
     /\ (Ev.e = "Spawn")
     /\ parent' = Put(parent, Ev.a, Ev.p) /\ spawned' = spawned \cup {Ev.a}
-    /\ UNCHANGED <<bad, killedEv, notified, killAimed, states, zombies, tainted>>
+    /\ UNCHANGED <<bad, killedEv, notified, killAimed, states, zombies, tainted, lateTicks>>
 OnKillCall ==
     /\ (Ev.e = "KillCall")
     /\ killAimed' = killAimed \cup {Ev.a}
     /\ tainted' = TRUE
-    /\ UNCHANGED <<bad, parent, spawned, killedEv, notified, states, zombies>>
+    /\ UNCHANGED <<bad, parent, spawned, killedEv, notified, states, zombies, lateTicks>>
 OnEvKilled ==
     /\ (Ev.e = "EvKilled")
     /\ killedEv' = killedEv \cup {Ev.a}
@@ -43,40 +43,40 @@ OnEvKilled ==
        IN bad' = IF Ev.a \in killedEv THEN Flag("KilledEventOnce")
                   ELSE IF desc \ killedEv # {} THEN Flag("ChildrenFirst")
                   ELSE bad
-    /\ UNCHANGED <<parent, spawned, notified, killAimed, states, zombies, tainted>>
+    /\ UNCHANGED <<parent, spawned, notified, killAimed, states, zombies, tainted, lateTicks>>
 OnDeliv ==
     /\ (Ev.e = "Deliv")
-    /\ IF Ev.k # "childkilled" THEN UNCHANGED <<notified, bad>>
+    /\ IF Ev.k # "childkilled" THEN UNCHANGED <<notified, bad, lateTicks>>
        ELSE LET key == <<Ev.a, Ev.p>> IN
             /\ notified' = Put(notified, key, Get(notified, key, 0) + 1)
             /\ bad' = IF Get(notified, key, 0) >= 1 THEN Flag("OnKilledOnce") ELSE bad
-    /\ UNCHANGED <<parent, spawned, killedEv, killAimed, states, zombies, tainted>>
+    /\ UNCHANGED <<parent, spawned, killedEv, killAimed, states, zombies, tainted, lateTicks>>
 OnHook ==
     /\ (Ev.e = "Hook")
     /\ zombies' = IF Ev.v = 0 /\ Ev.k \in {"restarted", "prelaunch"} THEN zombies \cup {Ev.a} ELSE zombies
-    /\ UNCHANGED <<bad, parent, spawned, killedEv, notified, killAimed, states, tainted>>
+    /\ UNCHANGED <<bad, parent, spawned, killedEv, notified, killAimed, states, tainted, lateTicks>>
 OnQBegin ==
     /\ (Ev.e = "QBegin")
     /\ states' = <<>>
-    /\ UNCHANGED <<bad, parent, spawned, killedEv, notified, killAimed, zombies, tainted>>
+    /\ UNCHANGED <<bad, parent, spawned, killedEv, notified, killAimed, zombies, tainted, lateTicks>>
 OnAState ==
     /\ (Ev.e = "AState")
     /\ states' = Put(states, Ev.a, Ev.s)
     /\ bad' = IF Ev.s = "gone" /\ Ev.k # "0/0" THEN Flag("NoSubscriptionsLeft") ELSE bad
-    /\ UNCHANGED <<parent, spawned, killedEv, notified, killAimed, zombies, tainted>>
+    /\ UNCHANGED <<parent, spawned, killedEv, notified, killAimed, zombies, tainted, lateTicks>>
 \* a Watch issued while nothing has been killed or has failed yet is certainly registered before the target can die
 OnWatch ==
     /\ (Ev.e = "Watch")
     /\ notified' = IF ~tainted THEN Put(notified, <<"w", Ev.p, Ev.a>>, 1) ELSE notified
-    /\ UNCHANGED <<bad, parent, spawned, killedEv, killAimed, states, zombies, tainted>>
+    /\ UNCHANGED <<bad, parent, spawned, killedEv, killAimed, states, zombies, tainted, lateTicks>>
 OnUnwatch ==
     /\ (Ev.e = "Unwatch")
     /\ notified' = [key \in DOMAIN notified \ {<<"w", Ev.p, Ev.a>>} |-> notified[key]]
-    /\ UNCHANGED <<bad, parent, spawned, killedEv, killAimed, states, zombies, tainted>>
+    /\ UNCHANGED <<bad, parent, spawned, killedEv, killAimed, states, zombies, tainted, lateTicks>>
 OnFail ==
     /\ (Ev.e = "Fail")
     /\ tainted' = TRUE
-    /\ UNCHANGED <<bad, parent, spawned, killedEv, notified, killAimed, states, zombies>>
+    /\ UNCHANGED <<bad, parent, spawned, killedEv, notified, killAimed, states, zombies, lateTicks>>
 OnQEnd ==
     /\ (Ev.e = "QEnd")
     /\ LET RECURSIVE Anc(_) Anc(x) == IF x \notin DOMAIN parent \/ parent[x] = "root" THEN {} ELSE {parent[x]} \cup Anc(parent[x])
@@ -95,14 +95,22 @@ OnQEnd ==
                   ELSE IF \E x \in killedEv : Get(states, x, "gone") # "gone" THEN Flag("PathReleased")
                   ELSE IF untold # {} THEN Flag("ParentNotifiedOnce")
                   ELSE bad
-    /\ UNCHANGED <<parent, spawned, killedEv, notified, killAimed, states, zombies, tainted>>
+    /\ UNCHANGED <<parent, spawned, killedEv, notified, killAimed, states, zombies, tainted, lateTicks>>
 OnFind ==
     /\ (Ev.e = "Find")
     /\ bad' = IF Ev.v = 1 /\ Ev.a \in killedEv THEN Flag("PathReleased") ELSE bad
-    /\ UNCHANGED <<parent, spawned, killedEv, notified, killAimed, states, zombies, tainted>>
+    /\ UNCHANGED <<parent, spawned, killedEv, notified, killAimed, states, zombies, tainted, lateTicks>>
 OnReset == Ev.e = "Reset" /\ FreshNext /\ UNCHANGED bad
-OnOther == Ev.e \notin {"Spawn", "KillCall", "EvKilled", "Deliv", "Hook", "QBegin", "AState", "QEnd", "Find", "Watch", "Unwatch", "Fail", "Reset"} /\ UNCHANGED <<bad, parent, spawned, killedEv, notified, killAimed, states, zombies, tainted>>
-Next == l <= Len(TLog) /\ l' = l + 1 /\ (OnWatch \/ OnUnwatch \/ OnFail \/ OnSpawn \/ OnKillCall \/ OnEvKilled \/ OnDeliv \/ OnHook \/ OnQBegin \/ OnAState \/ OnQEnd \/ OnFind \/ OnReset \/ OnOther)
+(* SchedFire a: the job function of a's own Loop job has been entered.  One firing may be under way when a terminates; *)
+(* more means the job outlived its actor ("its scheduled jobs are gone").  (Ticks that were queued in a's mailbox when  *)
+(* it died are dead-lettered afterwards: that is the backlog, not the job.)                                              *)
+OnLateTick == /\ Ev.e = "SchedFire"
+              /\ LET n == IF Ev.a \in killedEv THEN Get(lateTicks, Ev.a, 0) + 1 ELSE Get(lateTicks, Ev.a, 0) IN
+                   /\ lateTicks' = Put(lateTicks, Ev.a, n)
+                   /\ bad' = IF n > 2 THEN Flag("ScheduledJobsGone") ELSE bad
+              /\ UNCHANGED <<parent, spawned, killedEv, notified, killAimed, states, zombies, tainted>>
+OnOther == (Ev.e \notin {"Spawn", "KillCall", "EvKilled", "Deliv", "Hook", "QBegin", "AState", "QEnd", "Find", "Watch", "Unwatch", "Fail", "Reset", "SchedFire"}) /\ UNCHANGED <<bad, parent, spawned, killedEv, notified, killAimed, states, zombies, tainted, lateTicks>>
+Next == l <= Len(TLog) /\ l' = l + 1 /\ (OnWatch \/ OnUnwatch \/ OnFail \/ OnSpawn \/ OnKillCall \/ OnEvKilled \/ OnDeliv \/ OnHook \/ OnQBegin \/ OnAState \/ OnQEnd \/ OnFind \/ OnReset \/ OnLateTick \/ OnOther)
 Spec == Init /\ [][Next]_vars
 
 Ok == bad = ""
